@@ -327,3 +327,78 @@ Proof.
   destruct hard; auto.
   now rewrite (k2_deletes_ver _ _ o1 m1 (removed2_ver _ _ _ _ Hc Ht)).
 Qed.
+
+(* ------------------------------------------------------------------ *)
+(* action.recreate (--recreate-pods): only pods a updated object selects *)
+
+Lemma aget_filter_kv {V} (P : string * V -> bool) k (l : list (string * V)) :
+  NoDup (akeys l) ->
+  aget k (filter P l) = match aget k l with Some v => if P (k, v) then Some v else None | None => None end.
+Proof.
+  unfold akeys. induction l as [|[k' v'] t IH]; cbn [filter aget map fst]; intros H; [reflexivity|].
+  inversion H as [|? ? Hni Hnd]; subst.
+  destruct (String.eqb k k') eqn:E.
+  - apply String.eqb_eq in E. subst k'.
+    destruct (P (k, v')); cbn [aget]; [now rewrite String.eqb_refl|].
+    rewrite IH by assumption.
+    destruct (aget k t) eqn:A; auto. exfalso. apply Hni. apply aget_In in A.
+    change k with (fst (k, v)). now apply in_map.
+  - destruct (P (k', v')); cbn [aget]; rewrite ?E; auto.
+Qed.
+
+Lemma recreate_sels_In o rs ns sel :
+  In (ns, sel) (recreate_sels o rs) ->
+  exists r obj, In r rs /\ aget (r2_key r) o = Some obj /\ selector_of r obj = Some sel /\ ns = r2_ns r.
+Proof.
+  induction rs as [|r t IH]; cbn [recreate_sels]; [contradiction|].
+  destruct (aget (r2_key r) o) as [obj|] eqn:A.
+  - destruct (selector_of r obj) as [s|] eqn:S.
+    + intros [H|H].
+      * inversion H; subst. exists r, obj. repeat split; auto. now left.
+      * destruct (IH H) as [r' [obj' [Hin Hr]]]. exists r', obj'. split; [now right|exact Hr].
+    + intros H. destruct (IH H) as [r' [obj' [Hin Hr]]]. exists r', obj'. split; [now right|exact Hr].
+  - intros H. destruct (IH H) as [r' [obj' [Hin Hr]]]. exists r', obj'. split; [now right|exact Hr].
+Qed.
+
+Theorem recreate_get o rs key :
+  NoDup (akeys o) ->
+  aget key (fst (k2_recreate o rs)) =
+    match aget key o with
+    | Some v => if pod_selected (recreate_sels o rs) (key, v) then None else Some v
+    | None => None
+    end.
+Proof.
+  intros H. unfold k2_recreate. cbn [fst].
+  rewrite (aget_filter_kv (fun kv => negb (pod_selected (recreate_sels o rs) kv)) key o H).
+  destruct (aget key o) as [v|]; auto. now destruct (pod_selected (recreate_sels o rs) (key, v)).
+Qed.
+
+Theorem recreate_touches_only_selected_pods o rs key :
+  NoDup (akeys o) ->
+  aget key (fst (k2_recreate o rs)) <> aget key o ->
+  aget key (fst (k2_recreate o rs)) = None /\
+  exists r obj sel pod,
+    In r rs /\ aget (r2_key r) o = Some obj /\ selector_of r obj = Some sel /\
+    aget key o = Some pod /\ pod_key_in (r2_ns r) key = true /\ sel_match sel (labels_of pod) = true.
+Proof.
+  intros Hnd Hne. rewrite (recreate_get o rs key Hnd) in *.
+  destruct (aget key o) as [pod|] eqn:A; [|congruence].
+  destruct (pod_selected (recreate_sels o rs) (key, pod)) eqn:P; [|congruence].
+  split; [reflexivity|].
+  unfold pod_selected in P. apply existsb_exists in P. destruct P as [[ns sel] [Hin Hm]].
+  cbn [fst snd] in Hm. apply andb_true_iff in Hm. destruct Hm as [Hk Hs].
+  destruct (recreate_sels_In o rs ns sel Hin) as [r [obj [Hr [Ho [Hsel ->]]]]].
+  exists r, obj, sel, pod. repeat split; auto.
+Qed.
+
+(* kube.SelectorsForObject: a Service without (or with an empty) pod selector selects nothing (seeded C02-10) *)
+Theorem service_without_selector_selects_nothing r obj :
+  r2_kind r = "Service"%string -> r2_group r = ""%string ->
+  (tget ["spec"; "selector"]%string obj = None \/ tget ["spec"; "selector"]%string obj = Some (TM [])) ->
+  selector_of r obj = None.
+Proof.
+  intros K G H. unfold selector_of. rewrite K, G.
+  assert (E1 : (String.eqb "Service" "Deployment" && String.eqb "" "apps")%string = false) by reflexivity.
+  assert (E2 : (String.eqb "Service" "Service" && String.eqb "" "")%string = true) by reflexivity.
+  rewrite E1, E2. destruct H as [H|H]; rewrite H; reflexivity.
+Qed.
